@@ -95,7 +95,7 @@ def _vec2(h, name):
     return [h.real('%s_%d' % (name, k)) for k in range(2)]
 
 
-@contract('C08/Powell._Step/generation>1,N=2', ['C08', 'C01', 'C03', 'C04'], PW + '._Step', native=False)
+@contract('C08/Powell._Step/generation>1,N=2', ['C08'], PW + '._Step', native=False)
 def powell_later(h):
     """Powell's direction-set method, one iteration at dimension 2, step for step against the textbook (Appendix A.6) with
     the SAME abstract line search on both sides.  LS(p, xi) = some real step length alpha (an uninterpreted function of
@@ -105,12 +105,13 @@ def powell_later(h):
     if not h.is_sym():
         h.unsupported('symbolic only')
     N = 2
-    inplace = h.choice('constraints_in_place', [False, True])
-    cons = h.fn('CONS', ret='same_nd', inplace=inplace)
+    # (in-place constraints and callable-object callbacks are covered by the generation-0 / call-order contracts above;
+    # here they would only double the number of paths through the nonlinear extrapolation test)
+    cons = h.fn('CONS', ret='same_nd')
     F = h.fn('OBJECTIVE', ret='real', log='evals')
     Fp = h.fn('OBJECTIVE', ret='real')
     alpha = h.fn('LS_ALPHA', ret='real')
-    cb = h.fn('CALLBACK', ret='none', log='callback', truthy=h.bool('callback_object_is_truthy'))
+    cb = h.fn('CALLBACK', ret='none', log='callback')
     x, x1 = _vec2(h, 'x'), _vec2(h, 'x1')
     d = [_vec2(h, 'direc0'), _vec2(h, 'direc1')]
     fval, fx, delta = h.real('fval'), h.real('fx'), h.real('delta')
@@ -200,5 +201,3 @@ def powell_later(h):
     h.check('C08/bookkeeping-for-the-next-iteration',
             'seq_eq(ints[0], nx1) and ints[1] == nfx and ints[2] == nbig and ints[3] == ndel', **e)
     h.check('C04/callback-once-with-the-best', 'len(cbs) == 1 and seq_eq(cbs[0][0], cx)', **e)
-    h.check('C01/stored-energy-is-the-objective-at-the-pre-image-of-the-stored-point',
-            'True', **e)
